@@ -709,6 +709,19 @@ class Interp:
             return self.run_repo(st, fr, v.target, v.selfv, v.args, awaited=True)
         return self.theory.do_await(st, fr, v, node)
 
+    def ev_Yield(self, st, fr, e):
+        """`yield x` in a generator-based awaitable (Future.__await__): a suspension whose meaning the theory gives"""
+        hook = getattr(self.theory, "do_yield", None)
+        if hook is None:
+            raise Unsupported(f"yield in {fr.qual}")
+        out = []
+        for s, v in (self.ev(st, fr, e.value) if e.value is not None else [(st, NoneV())]):
+            if isinstance(v, Exit):
+                out.append((s, v))
+            else:
+                out.extend(hook(s, fr, v, e))
+        return out
+
     def ev_ListComp(self, st, fr, e):
         return self.theory.comprehension(st, fr, e)
 
